@@ -1,0 +1,12 @@
+//go:build verif
+
+// Machine-checked contracts (comment-only; compiled only under the build tag "verif").
+package util
+
+//@ define workloadTag(t) = t == typeid("*corev1.Pod") || t == typeid("*corev1.Service") || t == typeid("*apps.Deployment") || t == typeid("*apps.ReplicaSet") || t == typeid("*apps.StatefulSet") || t == typeid("*kruiseappsv1alpha1.CloneSet") || t == typeid("*kruiseappsv1alpha1.DaemonSet") || t == typeid("*kruiseappsv1beta1.StatefulSet") || t == typeid("*netv1.Ingress")
+
+//@ func GetEmptyObjectWithKey
+//@ props C05 C11
+//@ requires known_kind: workloadTag(object.tag)
+//@ ensures same_kind: result.tag == object.tag
+//@ ensures is_fresh: iref(result) != nil && fresh(iref(result))
